@@ -241,10 +241,11 @@ const (
 	opNamed
 	opWithOptions
 	opSkip1
+	opSkipM1
 	nOps
 )
 
-var opNames = [...]string{"Sugar", "Desugar", "With", "WithLazy", "Named", "WithOptions()", "WithOptions(AddCallerSkip(1))"}
+var opNames = [...]string{"Sugar", "Desugar", "With", "WithLazy", "Named", "WithOptions()", "WithOptions(AddCallerSkip(1))", "WithOptions(AddCallerSkip(-1))"}
 
 type chain struct {
 	ops   []op
@@ -282,11 +283,20 @@ func allChains(maxLen int) []chain {
 					n.sugar = false
 				case opSkip1:
 					n.skips++
+				case opSkipM1:
+					n.skips--
 				}
 				next = append(next, n)
 			}
 		}
-		out = append(out, next...)
+		// chains are extended from every prefix (the running total may dip below
+		// zero: caller skips are additive in any order), but only chains whose
+		// final total is >= 0 are used (the annotated frame must be a harness frame)
+		for _, n := range next {
+			if n.skips >= 0 {
+				out = append(out, n)
+			}
+		}
 		cur = next
 	}
 	return out
@@ -329,6 +339,12 @@ func (ch chain) apply(l *zap.Logger) (*zap.Logger, *zap.SugaredLogger) {
 				s = s.WithOptions(zap.AddCallerSkip(1))
 			} else {
 				l = l.WithOptions(zap.AddCallerSkip(1))
+			}
+		case opSkipM1:
+			if s != nil {
+				s = s.WithOptions(zap.AddCallerSkip(-1))
+			} else {
+				l = l.WithOptions(zap.AddCallerSkip(-1))
 			}
 		}
 	}
@@ -1437,7 +1453,7 @@ func main() {
 	}
 	run.Assume = []string{
 		"ground truth for a call site is the harness's own runtime.Callers view taken on the same source line (frame 0 cross-checked against the generator's static file:line:function); function, file and line are compared, not the PC",
-		"configured skips always land on a harness frame: a skip that reaches runtime.goexit/runtime.main or runs past the stack is outside the alphabet (zap documents only an error message for it), as are negative AddCallerSkip values",
+		"configured skips always land on a harness frame: a skip that reaches runtime.goexit/runtime.main or runs past the stack is outside the alphabet (zap documents only an error message for it), as are NET negative caller skips (individual negative AddCallerSkip values are used: skips are additive)",
 		"a captured depth of 1 (only runtime.goexit) is therefore left out; the smallest depth is 2 (goroutine closure + runtime.goexit)",
 		"*log.Logger / package log Fatal, Fatalf, Fatalln are left out (they end in the standard library's own os.Exit), Output as well (it takes its own calldepth, about which zap documents nothing); package-level slog functions are left out (slog.SetDefault rewires package log)",
 		"zap Fatal-level calls run with WithFatalHook(WriteThenPanic) and are recovered outside the wrapper chain",
@@ -1454,7 +1470,7 @@ func main() {
 	run.Finish(map[string]any{
 		"evaluations":         evals,
 		"distinct_nontrivial": len(classes),
-		"rule": fmt.Sprintf("every kind-correct chain of length <=%d over {Sugar, Desugar, With, WithLazy, Named, WithOptions(), WithOptions(AddCallerSkip(1))} x every generated *Logger / *SugaredLogger logging method (level-parameter methods at all 7 levels, Check+Write) x base AddCallerSkip 0..3 x stack off/on; "+
+		"rule": fmt.Sprintf("every kind-correct chain of length <=%d over {Sugar, Desugar, With, WithLazy, Named, WithOptions(), WithOptions(AddCallerSkip(1)), WithOptions(AddCallerSkip(-1)) [running total may be negative, final total >= 0]} x every generated *Logger / *SugaredLogger logging method (level-parameter methods at all 7 levels, Check+Write) x base AddCallerSkip 0..3 x stack off/on; "+
 			"captured depth %s (+ goroutine-entry sites) x 8 level thresholds x 7 levels x every method x skip 0..3 x AddCaller on/off, incl. std-log bridge, zap.Stack/StackSkip fields and zapslog with 9 slog levels; all 128 level subsets as stack enabler; "+
 			"NewStdLog/NewStdLogAt/RedirectStdLog/RedirectStdLogAt (7 levels) x every print method and zap.L()/zap.S() over chains of length <=%d; slog With/WithGroup chains <=%d x 10 thresholds; path alphabet for TrimmedPath. "+
 			"distinct = distinct (phase, method, level, configured skip, stack configuration, caller on/off, captured depth) tuples and distinct path inputs; every one executes a real log call whose entry is compared",
